@@ -32,6 +32,14 @@ HOSTS = [r"example\.org", r"(www\.)?example\.com", r".*\.internal", r"localhost(
 HOST_VALUES = [None, "example.org", "www.example.com", "example.com:8080", "a.internal", "localhost:8000", "[::1]:8000", "other.net"]
 
 
+SITE_MTIME = 1_650_000_000.0
+
+
+def http_date(ts):
+    from email.utils import formatdate
+    return formatdate(ts, usegmt=True)
+
+
 class ViewError(Exception):
     pass
 
@@ -60,7 +68,10 @@ def gen_request(t):
     if t.draw(4) == 0:
         headers.append(("If-None-Match", t.choice(["*", '"nope"', 'W/"x", "y"'])))
     if t.draw(5) == 0:
-        headers.append(("If-Modified-Since", t.choice(["Wed, 21 Oct 2015 07:28:00 GMT", "Fri, 01 Jan 2038 00:00:00 GMT", "junk"])))
+        # also the Last-Modified (mtime) and the change time of the site's files, as a client or a skewed clock would echo them
+        k = t.draw(len(SITE))
+        headers.append(("If-Modified-Since", t.choice(["Wed, 21 Oct 2015 07:28:00 GMT", "Fri, 01 Jan 2038 00:00:00 GMT", "junk",
+                                                       http_date(SITE_MTIME + k), http_date(SITE_MTIME + k), http_date(SITE_MTIME + k + 90), http_date(SITE_MTIME + k - 1)])))
     if t.draw(5) == 0:
         headers.append(("Range", t.choice(["bytes=0-3", "bytes=2-5,8-9", "bytes=-4", "bytes=99999-", "bytes=5-4", "x"])))
     method = t.weighted([(4, "GET"), (3, "POST"), (1, "HEAD"), (1, "PUT"), (1, "DELETE")])
@@ -169,7 +180,8 @@ class C04(Prop):
         self.workdir = workdir
         self.fs = simfs.install(workdir + "/fs")
         for i, (rel, data) in enumerate(SITE):
-            self.fs.write(rel, data, mtime=1_650_000_000.0 + i, ctime=1_650_000_000.0 + i)
+            # like files unpacked from an archive: the inode change time is later than the modification time
+            self.fs.write(rel, data, mtime=SITE_MTIME + i, ctime=SITE_MTIME + i + (0 if i % 3 == 0 else 90))
 
     def gen_plan(self, t):
         return {"req": gen_request(t), "app": gen_app(t), "lat": t.choice(["fast", "mixed"]), "short": t.draw(2) == 0}
